@@ -1,6 +1,6 @@
 """C04 - hand-written backward methods: variance typing (VT), sibling agreement (SB), layout conventions (LT)."""
 import ast, re, copy
-from ..core import RuleResult, Finding, AnalysisError, dotted, src, norm_construct
+from ..core import RuleResult, Finding, AnalysisError, dotted, src, norm_construct, guarded, guarded_list
 from ..expr import inline_straight, returns_of, dump, subst, rv
 from .. import paths
 
@@ -237,6 +237,7 @@ def saved_kinds(repo, cname):
     raise AnalysisError('C04: %s.setup_context saves nothing' % cname)
 
 
+@guarded
 def rule_vt(repo, tier):
     res = RuleResult('C04.VT', 'variance typing of every hand-written backward: the incoming cotangent is a covector, it may only '
                      'be pulled back (row @ map); push-forwards / ad(cotangent) are accepted only for families with orthogonal '
@@ -318,6 +319,7 @@ def _famnorm(s):
     return ALG_RE.sub('g_', s)
 
 
+@guarded
 def rule_sb(repo, tier):
     res = RuleResult('C04.SB', 'the four family siblings of each op return structurally equal backward / setup_context expression '
                      'trees after family normalisation (SO3|SE3|RxSO3|Sim3 -> G, so3|.. -> g); AdjTXa is compared within the '
@@ -405,6 +407,7 @@ class _BTyper(L.Typer):
         return super().call(e)
 
 
+@guarded
 def rule_lt(repo, tier):
     res = RuleResult('C04.LT', 'backward returns one gradient per forward input; a gradient for a group input is (manifold-dim part, one '
                      'zero), for an algebra / point input the full dimension; grad_output[..., :-1] is used exactly when the op output '
@@ -481,6 +484,7 @@ def rules(repo, tier):
     return [rule_vt(repo, tier), rule_sb(repo, tier), rule_lt(repo, tier), rule_pure(repo, tier), rule_dep(repo, tier)]
 
 
+@guarded
 def rule_pure(repo, tier):
     from .. import effects
     res = RuleResult('C04.PURE', 'every function and autograd method of pypose.lietensor.operation is pure: it writes in place neither into '
@@ -558,6 +562,7 @@ def _slots_used(repo, fname, layout_slots, depth=0):
     return used
 
 
+@guarded
 def rule_dep(repo, tier):
     res = RuleResult('C04.DEP', 'slot-dependency agreement: for groups with a translation slot the forward of Act4 multiplies the translation by '
                      'the homogeneous coordinate of the point, so the pose gradient (its Act4 Jacobian helper) must depend on that '
